@@ -33,4 +33,18 @@ PROPS = {
         'supported_range': ['|exp| < 2^29', 'val > i64::MIN for Dyadic::new / From<i64>'],
         'not_covered': ['complex_value() / f64::try_from accuracy (floating point; CBMC models powi nondeterministically)'],
     },
+    'C10': {
+        'level': 'proof',
+        'verus': ['params'],
+        'assumptions': [
+            'Vec<u32> -> Box<[u32]>, [u32; N] -> Box<[u32]> and Box<[u32]>::clone keep the elements in order (stubs vec_into_boxed / arr1_into_boxed / arr0_into_boxed / boxed_clone)',
+            '#[derive(PartialEq)] on Parity is structural equality; the derived ordering is left uninterpreted (the proof of Expr::quadratic holds for every ordering)',
+            'the representation invariant `strictly sorted variable list` is a precondition: Parity::new and From<Vec<Var>> do not establish it (the latter sorts but keeps duplicates) and are not under contract',
+        ],
+        'supported_range': ['|a| + |b| <= usize::MAX for a + b (Vec::with_capacity argument)'],
+        'not_covered': [
+            'use of variables inside rewrite rules, simplifiers and the Measure translation ("same linear map under every assignment" is a diagram-semantics claim, see C01)',
+            'scalar-factor tables keyed by Expr (FxHashMap, no specification)',
+        ],
+    },
 }
